@@ -107,5 +107,5 @@ InvQuiet == NoFinding(QuietDead(s))              \* nothing taken from the descr
 ReachTot == ~(s.tot > 0 /\ s.pc = "idle")
 ReachEofAndErr == ~({"eof", "error"} \subseteq s.reps)
 ReachTimeoutWithBytes == ~(s.pc = "cbwait" /\ s.h.err = ETIMEDOUT /\ s.h.n > 0)
-ReachWriteDone == ~(~IsRead(s) /\ s.pc = "cb" /\ s.buf.tr = 0 /\ Len(s.out) = 3)
+ReachWriteDone == ~(~IsRead(s) /\ s.pc = "cbwait" /\ s.buf.tr = 0 /\ Len(s.out) = s.cfg.tr0 /\ s.ncb >= 1)
 =============================================================================
